@@ -1,5 +1,7 @@
 mod c05;
+mod c05std;
 mod c30;
+mod common;
 
 fn main() {
     let args: Vec<String> = std::env::args().skip(1).collect();
